@@ -128,6 +128,7 @@ def install(R):
           requires=[
               ("types", "none_or_int(self.batchsize) and none_or_int(self.num_batches) and none_or_int(self._batch_remainder)"),
               ("N", "N == NSettings(combos, cases) and N >= 1"),
+              ("combos", "combos is None or is_seq(combos)"),
           ],
           modifies=["self.batchsize", "self.num_batches", "self._batch_remainder"],
           ensures=[
